@@ -121,8 +121,15 @@ def build_files(case, defect=None):
             # included from another phase: the included file says which phase its contents belong to
             place_ph = car['inc_from']
             inc = ['[%s]' % cph] + inc
-        files[CG.INC_NAME] = '\n'.join(inc) + ('\n' if case.get('final_newline', True) else '')
-        placed = ['including ' + CG.INC_NAME]
+        inc_text = '\n'.join(inc) + ('\n' if case.get('final_newline', True) else '')
+        if car.get('inc_depth', 1) == 2:
+            # the included file includes the file with the carrier (path relative to the including file)
+            files['sub/inc2.xly'] = inc_text
+            files['sub/' + CG.INC_NAME] = 'including inc2.xly\n'
+            placed = ['including sub/' + CG.INC_NAME]
+        else:
+            files[CG.INC_NAME] = inc_text
+            placed = ['including ' + CG.INC_NAME]
     elif where == 'suite':
         suite_sections = {'setup': list(prelude)}
         suite_sections.setdefault(cph, [])
@@ -277,6 +284,7 @@ def generated_cases(draw, tier='quick'):
             'blank_lines': draw(st.booleans()), 'final_newline': draw(st.booleans()),
             'carrier': {'ph': cph, 'pos': pos, 'where': where, 'actor': actor, 'elems': elems,
                         'inc_marker': draw(st.booleans()), 'suite_explicit': draw(st.booleans()),
+                        'inc_depth': draw(st.sampled_from([1, 1, 2])),
                         'inc_from': draw(st.sampled_from([None, None] + IPHASES)) if cph in IPHASES else None},
             'at_eof': at_eof, 'symbol_check': draw(_ONE_IN_4)}
     if at_eof and where == 'main' and cph in IPHASES:
@@ -356,6 +364,7 @@ def enumerated_cases(tier):
         case = {'effects': effects, 'order': order, 'blank_lines': bool(k % 3 == 0), 'final_newline': bool(k % 4),
                 'carrier': {'ph': cph, 'pos': [n, 0, n, 1][k % 4] if n else 0, 'where': where, 'actor': actor,
                             'elems': elems, 'inc_marker': bool(k % 2), 'suite_explicit': bool(k % 2),
+                            'inc_depth': 1 + (k // 7) % 2,
                             'inc_from': None},
                 'at_eof': k % 2 == 0, 'symbol_check': k % 5 == 0}
         if case['at_eof'] and where == 'main' and cph in IPHASES:
